@@ -57,14 +57,20 @@ def mask_net(addr: str, plen: int) -> str:
     return str(ipaddress.IPv4Address(n))
 
 
+def realistic(shape: dict) -> bool:
+    """RFC 6793: a speaker whose AS number needs four octets announces the 4-octet AS capability
+    (without it nothing on the wire carries its number)."""
+    return (shape['las'] <= 65535 or bool(shape['asn4'])) and (shape['pas'] <= 65535 or bool(shape['peer_asn4']))
+
+
 def gen_shape(rng) -> dict:
-    las_big = rng.random() < 0.2
+    las_big = rng.random() < 0.25
     ibgp = rng.random() < 0.5
     las = rng.choice([70000, 4200000001]) if las_big else rng.choice([65000, 64512, 1])
     pas = las if ibgp else (rng.choice([80000, 65001]) if las_big else rng.choice([65001, 2, 90000]))
     a4 = rng.random() < 0.6
     side = rng.random()
-    return {
+    shape = {
         'las': las,
         'pas': pas,
         'asn4': int(a4 or side < 0.5),
@@ -75,6 +81,12 @@ def gen_shape(rng) -> dict:
         'll': int(rng.random() < 0.12),
         'v6': int(rng.random() < 0.12),
     }
+    if rng.random() < 0.95:  # mostly sessions that can exist; the rest only feeds the model/code comparison
+        if shape['las'] > 65535:
+            shape['asn4'] = 1
+        if shape['pas'] > 65535:
+            shape['peer_asn4'] = 1
+    return shape
 
 
 def gen_aspath(rng, big: bool) -> list:
@@ -214,24 +226,26 @@ def canon_of(what: str, req: dict, shape: dict, words: str) -> list:
     fam = f'{afi}.{safi}'
     nh = req['nh'][0]
     w = words.split(' ')
-    local_v6 = len(w[6]) == 32
+    local_v6 = len(w[7]) == 32
     nh_v6 = nh == '6' or (nh == 'self' and local_v6 and afi == 2)
     nh_v4 = nh == '4' or (nh == 'self' and not nh_v6)
     ibgp = 'ibgp' if shape['las'] == shape['pas'] else 'ebgp'
     if what in ('attr:2', 'attr:5') and shape['las'] > 65535:
         return ['local-as-4byte', what, ibgp]
+    if what == 'raises:error' and shape['las'] > 65535 and ibgp == 'ebgp' and not any(k == 'as-path' for k, _ in req['attrs']) and req.get('obj_aspath') is None:
+        return ['default-as-path-raises', 'local-as-4byte', 'ebgp']
     if fam == '1.2' and nh_v4 and what in ('family-changed', 'undecodable:3/10'):
         return ['ipv4-multicast-in-classic-nlri']
-    if what == 'undecodable:3/9' and afi == 1 and nh_v6 and fam not in w[4].split('+'):
+    if what == 'undecodable:3/9' and afi == 1 and nh_v6 and fam not in w[5].split('+'):
         return ['ipv6-nexthop-without-ext-nexthop']
     if what == 'undecodable:3/9' and afi == 2 and nh == '4':
         return ['ipv4-nexthop-for-ipv6-route']
-    if what == 'undecodable:3/9' and fam == '2.128' and w[8] != '-':
+    if what == 'undecodable:3/9' and fam == '2.128' and w[9] != '-':
         return ['link-local-nexthop-vpn']
     if what == 'nexthop-self' and afi == 1 and local_v6:
         return ['self-router-id-on-ipv6-session']
     given = any(k == {'attr:2': 'as-path', 'attr:5': 'local-preference'}.get(what) for k, _ in req['attrs'])
-    return [what, fam, 'nh-' + nh, ibgp, 'asn4' if w[2] == '1' else 'asn2', 'given' if given else 'default']
+    return [what, fam, 'nh-' + nh, ibgp, 'asn4' if w[3] == '1' else 'asn2', 'given' if given else 'default']
 
 
 def shrink_req(req: dict, still) -> dict:
@@ -271,6 +285,8 @@ def evaluate(cases: list[tuple[dict, dict, str]]) -> list[dict]:
 
 
 def judge_row(r: dict):
+    if not realistic(r['shape']):
+        return None
     return encoderig.judge(r['req'], r['shape'], r['sess'].words, r['impl'], r['report'])
 
 
@@ -334,12 +350,14 @@ def run(ctx: Ctx) -> None:
             ctx.count('family:' + fam)
             ctx.count('nexthop:' + req['nh'][0])
             ctx.count('outcome:' + impl[0])
-            ctx.count('session:' + ('ibgp' if shape['las'] == shape['pas'] else 'ebgp') + ('/asn4' if r['sess'].words.split(' ')[2] == '1' else '/asn2') + ('/las4' if shape['las'] > 65535 else ''))
+            ctx.count('session:' + ('ibgp' if shape['las'] == shape['pas'] else 'ebgp') + ('/asn4' if r['sess'].words.split(' ')[3] == '1' else '/asn2') + ('/las4' if shape['las'] > 65535 else ''))
             ctx.count(f'session:ap={shape["ap"]} xnh={shape["xnh"]} size={4096 if not shape["em"] else 65535}')
             if shape['v6']:
                 ctx.count('session:ipv6-transport')
             if shape['ll']:
                 ctx.count('session:link-local')
+            if not realistic(shape):
+                ctx.count('session:unrealistic (4-octet AS without the capability; compared, not judged)')
             for kw, _ in req['attrs']:
                 ctx.count('attr:' + kw)
             if req.get('obj_aspath') is not None:
